@@ -220,10 +220,12 @@ fn decode_event(bytes: &[u8], want_text: bool, want_ops: bool, want_serde: bool)
 /// derived velocity as scaled integers: heading in 1e-4 degrees, ground speed in milli-knots
 pub fn project_calc(v: &adsb_deku::adsb::AirborneVelocity) -> Value {
     match v.calculate() {
-        None => json!({"some": 0, "hdg4": 0, "gsmkt": 0, "vrate": 0}),
+        None => json!({"some": 0, "hdg4": 0, "hneg": 0, "gsmkt": 0, "vrate": 0}),
         Some((h, g, r)) => json!({
             "some": 1,
             "hdg4": project::scaled(f64::from(h), 1e4),
+            // the sign of the value as a consumer sees it (`-0.0` prints as "-0" and is negative to `is_sign_negative`)
+            "hneg": i64::from(h.is_sign_negative()),
             "gsmkt": project::scaled(g, 1e3),
             "vrate": i64::from(r),
         }),
